@@ -5,11 +5,13 @@ CONSTANTS KeyOrd <- KeyAB
           NPaths = 1
           Blocked = {}
           Allow = {}
+          GenFlush = {1, 2, 3, 4}
+          WarmReads = TRUE
           InitCfgs <- FewCfgs
-          WriteCfgs <- FewWrite
+          WriteCfgs <- TwoWrite
           MaxBegin = 2
           MaxRead = 2
-          MaxSpawn = 3
+          MaxSpawn = 2
           MaxCrash = 1
 INIT Init
 NEXT NextMC
